@@ -1,21 +1,39 @@
-// Package simcluster is a single-copy linearizable registry + membership view
-// standing in for olric/memberlist in simulated runs.
+// Package simcluster is the simulated cluster backend: a single-copy
+// linearizable key/value registry with TTL on the fake clock, a membership view
+// whose coordinator is the oldest live member, and the cluster-events pub/sub
+// feed (node join / left, rebalance start / complete) that olric would publish.
+// It stands in for olric + memberlist below the record primitives of the real
+// internal/cluster.cluster. Every operation is a scheduling point and a fault
+// point (error, slow answer). Not instrumented: code between the explicit simrt
+// scheduling points runs atomically.
 package simcluster
 
 import (
 	"context"
 	"encoding/json"
+	"errors"
 	"sort"
-	"sync"
 	"time"
 
 	"github.com/redis/go-redis/v9"
 	"github.com/tochemey/olric"
+	"github.com/tochemey/olric/events"
 
 	"github.com/tochemey/goakt/v4/discovery"
-	"github.com/tochemey/goakt/v4/internal/cluster"
 	"github.com/tochemey/goakt/v4/zzverif/simrt"
 )
+
+// Config selects the registry fault kinds (per mille, drawn from the fault tape).
+type Config struct {
+	ErrPerm  int           // an operation fails with ErrInjected
+	SlowPerm int           // an operation takes SlowFor of simulated time (or until the caller's deadline)
+	SlowFor  time.Duration
+	// OnlyOps restricts faults to the named operations (put, putnx, get, delete, keys, incr, members); empty = all.
+	OnlyOps map[string]bool
+}
+
+// ErrInjected is the error injected registry operations fail with.
+var ErrInjected = errors.New("simcluster: injected registry failure")
 
 type entry struct {
 	val    []byte
@@ -24,53 +42,63 @@ type entry struct {
 
 type member struct {
 	node  *discovery.Node
+	addr  string
 	birth int64
 	ch    chan *redis.Message
 }
 
 type Backend struct {
-	mu      sync.Mutex
+	F       *simrt.Tape
+	Cfg     Config
 	kv      map[string]entry
 	members []*member
 	seq     int64
+	Epoch   uint64
 	Ops     map[string]int
+	Faults  map[string]int
+	down    map[string]bool // nodes whose registry calls all fail (crashed or cut off)
+	lagging map[string][]olric.Member // nodes that see a stale member list
+	FaultsOn bool
+	// AutoEvents: publish join/left + rebalance events automatically on Join/Leave/Crash.
+	AutoEvents bool
+	OnOp       func(node, op, key string) // observation hook for scenarios
 }
 
-func Enable() *Backend {
-	b := &Backend{kv: map[string]entry{}, Ops: map[string]int{}}
-	cluster.SimBackendFor = func(*discovery.Node) cluster.SimBackend { return b }
-	return b
+func New(f *simrt.Tape, cfg Config) *Backend {
+	return &Backend{F: f, Cfg: cfg, kv: map[string]entry{}, Ops: map[string]int{}, Faults: map[string]int{}, down: map[string]bool{}, lagging: map[string][]olric.Member{}, AutoEvents: true}
 }
 
-func Disable() { cluster.SimBackendFor = nil }
-
-func (b *Backend) op(name string) {
+// point is the scheduling + fault point at the start of every operation.
+func (b *Backend) point(ctx context.Context, node, op, key string) error {
 	simrt.Yield(-200)
-	b.mu.Lock()
-	b.Ops[name]++
-	b.mu.Unlock()
-}
-
-func (b *Backend) Join(node *discovery.Node) <-chan *redis.Message {
-	b.op("join")
-	b.mu.Lock()
-	defer b.mu.Unlock()
-	b.seq++
-	m := &member{node: node, birth: b.seq, ch: make(chan *redis.Message, 256)}
-	b.members = append(b.members, m)
-	return m.ch
-}
-
-func (b *Backend) Leave(node *discovery.Node) {
-	b.op("leave")
-	b.mu.Lock()
-	defer b.mu.Unlock()
-	for i, m := range b.members {
-		if m.node.PeersAddress() == node.PeersAddress() {
-			b.members = append(b.members[:i], b.members[i+1:]...)
-			return
+	b.Ops[op]++
+	if b.OnOp != nil {
+		b.OnOp(node, op, key)
+	}
+	if b.down[node] {
+		b.Faults["registry-unreachable"]++
+		return ErrInjected
+	}
+	if !b.FaultsOn || (len(b.Cfg.OnlyOps) > 0 && !b.Cfg.OnlyOps[op]) {
+		return nil
+	}
+	if b.Cfg.ErrPerm > 0 && b.F.Draw(1000) < b.Cfg.ErrPerm {
+		b.Faults["registry-error:"+op]++
+		return ErrInjected
+	}
+	if b.Cfg.SlowPerm > 0 && b.F.Draw(1000) < b.Cfg.SlowPerm {
+		b.Faults["registry-slow:"+op]++
+		t := time.NewTimer(b.Cfg.SlowFor)
+		defer t.Stop()
+		select {
+		case <-t.C:
+			simrt.Yield(-201)
+		case <-ctx.Done():
+			simrt.Yield(-201)
+			return ctx.Err()
 		}
 	}
+	return nil
 }
 
 func (b *Backend) live(key string) (entry, bool) {
@@ -82,10 +110,54 @@ func (b *Backend) live(key string) (entry, bool) {
 	return e, ok
 }
 
+// ---- cluster.SimBackend
+
+func (b *Backend) Join(node *discovery.Node) <-chan *redis.Message {
+	simrt.Yield(-202)
+	b.Ops["join"]++
+	b.seq++
+	m := &member{node: node, addr: node.PeersAddress(), birth: b.seq, ch: make(chan *redis.Message, 1024)}
+	b.members = append(b.members, m)
+	delete(b.down, m.addr)
+	if b.AutoEvents {
+		b.Epoch++
+		b.Publish("", RebalanceStart(b.Epoch, "node-join", m.addr))
+		b.Publish("", NodeJoin(m.addr))
+		b.Publish("", RebalanceComplete(b.Epoch))
+	}
+	return m.ch
+}
+
+func (b *Backend) remove(addr string) bool {
+	for i, m := range b.members {
+		if m.addr == addr {
+			b.members = append(b.members[:i], b.members[i+1:]...)
+			return true
+		}
+	}
+	return false
+}
+
+func (b *Backend) Leave(node *discovery.Node) {
+	simrt.Yield(-203)
+	b.Ops["leave"]++
+	addr := node.PeersAddress()
+	if b.remove(addr) && b.AutoEvents {
+		b.Epoch++
+		b.Publish("", NodeLeft(addr))
+		b.Publish("", RebalanceStart(b.Epoch, "node-left", addr))
+		b.Publish("", RebalanceComplete(b.Epoch))
+	}
+}
+
 func (b *Backend) Put(ctx context.Context, node, key string, value []byte, nx bool, ttl time.Duration) error {
-	b.op("put")
-	b.mu.Lock()
-	defer b.mu.Unlock()
+	op := "put"
+	if nx {
+		op = "putnx"
+	}
+	if err := b.point(ctx, node, op, key); err != nil {
+		return err
+	}
 	if nx {
 		if _, ok := b.live(key); ok {
 			return olric.ErrKeyFound
@@ -100,9 +172,9 @@ func (b *Backend) Put(ctx context.Context, node, key string, value []byte, nx bo
 }
 
 func (b *Backend) Get(ctx context.Context, node, key string) ([]byte, error) {
-	b.op("get")
-	b.mu.Lock()
-	defer b.mu.Unlock()
+	if err := b.point(ctx, node, "get", key); err != nil {
+		return nil, err
+	}
 	e, ok := b.live(key)
 	if !ok {
 		return nil, olric.ErrKeyNotFound
@@ -111,29 +183,31 @@ func (b *Backend) Get(ctx context.Context, node, key string) ([]byte, error) {
 }
 
 func (b *Backend) Delete(ctx context.Context, node, key string) error {
-	b.op("delete")
-	b.mu.Lock()
-	defer b.mu.Unlock()
+	if err := b.point(ctx, node, "delete", key); err != nil {
+		return err
+	}
 	delete(b.kv, key)
 	return nil
 }
 
 func (b *Backend) Keys(ctx context.Context, node string) ([]string, error) {
-	b.op("keys")
-	b.mu.Lock()
-	defer b.mu.Unlock()
+	if err := b.point(ctx, node, "keys", ""); err != nil {
+		return nil, err
+	}
 	keys := make([]string, 0, len(b.kv))
 	for k := range b.kv {
-		keys = append(keys, k)
+		if _, ok := b.live(k); ok {
+			keys = append(keys, k)
+		}
 	}
 	sort.Strings(keys)
 	return keys, nil
 }
 
 func (b *Backend) Incr(ctx context.Context, node, key string, delta int) (int, error) {
-	b.op("incr")
-	b.mu.Lock()
-	defer b.mu.Unlock()
+	if err := b.point(ctx, node, "incr", key); err != nil {
+		return 0, err
+	}
 	n := 0
 	if e, ok := b.kv[key]; ok {
 		_ = json.Unmarshal(e.val, &n)
@@ -144,14 +218,112 @@ func (b *Backend) Incr(ctx context.Context, node, key string, delta int) (int, e
 	return n, nil
 }
 
-func (b *Backend) Members(ctx context.Context, node string) ([]olric.Member, error) {
-	b.op("members")
-	b.mu.Lock()
-	defer b.mu.Unlock()
+func (b *Backend) memberList() []olric.Member {
 	out := make([]olric.Member, 0, len(b.members))
 	for i, m := range b.members {
 		meta, _ := json.Marshal(m.node)
-		out = append(out, olric.Member{Name: m.node.PeersAddress(), ID: uint64(m.birth), Birthdate: m.birth, Coordinator: i == 0, Meta: string(meta)})
+		out = append(out, olric.Member{Name: m.addr, ID: uint64(m.birth), Birthdate: m.birth, Coordinator: i == 0, Meta: string(meta)})
 	}
-	return out, nil
+	return out
+}
+
+func (b *Backend) Members(ctx context.Context, node string) ([]olric.Member, error) {
+	if err := b.point(ctx, node, "members", ""); err != nil {
+		return nil, err
+	}
+	if stale, ok := b.lagging[node]; ok {
+		b.Faults["stale-member-view"]++
+		return stale, nil
+	}
+	return b.memberList(), nil
+}
+
+// ---- scenario-side controls
+
+// Snapshot returns a copy of the live registry (key -> value).
+func (b *Backend) Snapshot() map[string][]byte {
+	out := map[string][]byte{}
+	for k := range b.kv {
+		if e, ok := b.live(k); ok {
+			out[k] = e.val
+		}
+	}
+	return out
+}
+
+// MemberAddrs lists the live members, oldest (coordinator) first.
+func (b *Backend) MemberAddrs() []string {
+	var l []string
+	for _, m := range b.members {
+		l = append(l, m.addr)
+	}
+	return l
+}
+
+// Crash removes a member without its cooperation: its registry calls fail from
+// now on and the survivors are told (unless AutoEvents is off).
+func (b *Backend) Crash(addr string, completeRebalance bool) {
+	b.down[addr] = true
+	b.Faults["node-crash"]++
+	if b.remove(addr) && b.AutoEvents {
+		b.Epoch++
+		b.Publish("", NodeLeft(addr))
+		b.Publish("", RebalanceStart(b.Epoch, "node-left", addr))
+		if completeRebalance {
+			b.Publish("", RebalanceComplete(b.Epoch))
+		}
+	}
+}
+
+// SetDown makes every registry call of a node fail (partition from the registry).
+func (b *Backend) SetDown(addr string, down bool) {
+	if down {
+		b.down[addr] = true
+	} else {
+		delete(b.down, addr)
+	}
+}
+
+// FreezeView makes a node keep seeing the current member list (leadership lag).
+func (b *Backend) FreezeView(addr string, on bool) {
+	if on {
+		b.lagging[addr] = b.memberList()
+	} else {
+		delete(b.lagging, addr)
+	}
+}
+
+// Publish delivers a cluster event payload to one member ("" = all members).
+func (b *Backend) Publish(to string, payload string) {
+	for _, m := range b.members {
+		if to != "" && m.addr != to {
+			continue
+		}
+		select {
+		case m.ch <- &redis.Message{Channel: events.ClusterEventsChannel, Payload: payload}:
+		default:
+			b.Faults["event-channel-full"]++
+		}
+	}
+}
+
+func mustJSON(v any) string {
+	p, _ := json.Marshal(v)
+	return string(p)
+}
+
+func NodeJoin(addr string) string {
+	return mustJSON(events.NodeJoinEvent{Kind: events.KindNodeJoinEvent, Source: "sim", NodeJoin: addr, Timestamp: time.Now().UnixNano()})
+}
+
+func NodeLeft(addr string) string {
+	return mustJSON(events.NodeLeftEvent{Kind: events.KindNodeLeftEvent, Source: "sim", NodeLeft: addr, Timestamp: time.Now().UnixNano()})
+}
+
+func RebalanceStart(epoch uint64, reason, node string) string {
+	return mustJSON(events.RebalanceStartEvent{Kind: events.KindRebalanceStartEvent, Source: "sim", Epoch: epoch, Reason: reason, Node: node, Timestamp: time.Now().UnixNano()})
+}
+
+func RebalanceComplete(epoch uint64) string {
+	return mustJSON(events.RebalanceCompleteEvent{Kind: events.KindRebalanceCompleteEvent, Source: "sim", Epoch: epoch, Timestamp: time.Now().UnixNano()})
 }
